@@ -258,18 +258,23 @@ CLAIMED["C20"] = {
 }
 CLAIMED["C15"] = {
     "design_ref": "DESIGN.md §4 C15, notes/C15.md",
-    "text": "Proved in Coq for all event sequences on an executable model of the invoice registry (regular, hold, "
-            "zero-amount, MPP with payment address, blinded path, keysend incl. hold-keysend): every Settle resolution is "
-            "for an HTLC recorded settled on a settled invoice whose preimage hashes to the HTLC's payment hash, with "
-            "matching payment address, both CLTV margins at acceptance, and a fully paid set (common total >= value, "
-            "sum >= total); states only move forward; AmtPaid equals the sum of settled HTLCs; replays are answered from "
-            "the record when no just-in-time keysend pre-check applies (refuted with it: known finding C15-F1); no HTLC "
-            "is both settled and canceled. Tied on every run by a differential run of the real InvoiceRegistry on the KV "
-            "and sqlite stores (every resolution incl. hodl deliveries and LookupInvoice after every event), plus a "
-            "sha256-checking predicate on the implementation trace (covers AMP sets too).",
-    "note": "Partial for AMP (only rejections modelled; AMP sets by the trace predicate), the HTLC interceptor and "
-            "concurrent notifiers (serialised by the registry mutex, not exercised). Link invariant 'one payment hash "
-            "per circuit key' assumed. Trusted: Coq kernel, harness, python predicate.",
+    "text": "Proved in Coq (9 theorems, any hash function, any AMP reconstruction oracle) for any sequence of registry "
+            "calls (AddInvoice, NotifyExitHopHtlc incl. replays, MPP and AMP sets, spontaneous keysend/AMP, "
+            "SettleHodlInvoice, CancelInvoice, set timeouts): the registry orders settlement of an HTLC only when it is "
+            "recorded settled, the released preimage hashes to that HTLC's payment hash (AMP: its own reconstructed "
+            "preimage, checked by the code against the HTLC's hash), it carried the invoice's payment address where "
+            "required, left both final-CLTV margins, and the HTLCs settled with it declare one common total >= the invoice "
+            "value and sum to at least that total (AMP: per set id, per settling step). States and records only move "
+            "forward and no HTLC is both settled and canceled (AMP HTLC records: SQL store; refuted on the KV store, "
+            "known finding C15-F2). A settled non-AMP invoice's AmtPaid is the sum of its settled HTLCs. Replays get the "
+            "recorded verdict when no JIT pre-check applies (refuted with it: C15-F1, keysend and AMP). Tied on every run "
+            "by a differential run of the real InvoiceRegistry on the KV and sqlite stores (every resolution incl. hodl "
+            "deliveries, LookupInvoice incl. per-HTLC AMP fields and AMPState after every event; oracle table from the "
+            "real amp.ReconstructChildren) plus a sha256-checking predicate on the implementation trace.",
+    "note": "AMP reconstruction is a Section oracle without hypothesis; AMP AmtPaid/AMPState are tied by differential run "
+            "and trace predicate only (no theorem). The HTLC interceptor and concurrent notifiers (serialised by the "
+            "registry mutex) are not exercised. Link invariants 'one payment hash / one payload per circuit key' assumed. "
+            "KV/SQL divergences modelled via a store flag. Trusted: Coq kernel, harness, python predicate.",
     "technique": "Coq invariant proof over all event sequences + differential correspondence (KV + sqlite) + trace predicate",
 }
 CLAIMED["C11"] = {
@@ -312,10 +317,17 @@ CLAIMED["C12"] = {
             "C12-F1); the remaining conjuncts and at-most-once are proved. Tie: real ChannelArbitrator + real bolt log "
             "with mock chain/switch/registry on seeded and exhaustive small universes of HTLC-set triples x heights x "
             "preimage knowledge x triggers; states, ForceCloseChan calls, fail-backs, final outcomes and inserted "
-            "resolvers compared per operation + independent predicate from the property text.",
-    "note": "Resolver progress after insertion belongs to C13. Hypotheses stated in the theorems: unique HTLC indexes "
-            "per commitment/direction, one resolution per HTLC output supplied by lnwallet, offered HTLCs on our "
-            "commitment are on the confirmed one. Harness does not start the arbitrator goroutine. Trusted: Coq kernel, "
+            "resolvers compared per operation + independent predicate from the property text. The shape hypotheses of "
+            "the classification theorems (unique indexes per commitment/direction; every offered HTLC on our commitment is "
+            "also on the peer's current and pending commitment) are DERIVED from the channel state machine "
+            "(C12_shape_reachable / _resync over the two-party channel model of C01/C03, new cut-order invariant), the "
+            "*_reachable theorems carry no shape hypothesis, and the shape predicate is evaluated on every party dump "
+            "(live and reloaded) of seeded real LightningChannel schedules.",
+    "note": "Resolver progress after insertion belongs to C13. Remaining stated hypothesis: one resolution per HTLC "
+            "output supplied by lnwallet (res_complete); local_sub_conf for the pending kind only when a pending "
+            "commitment exists. Reachable states where current and pending commitments disagree on an HTLC's dust-ness "
+            "exist (C12_shape_dust_disagreement_reachable); there checkRemoteDanglingActions depends on Go map order and "
+            "the model keeps the first record. Harness does not start the arbitrator goroutine. Trusted: Coq kernel, "
             "harness, python predicate.",
     "technique": "Coq proof over the decision model + differential correspondence on the real ChannelArbitrator + "
                  "predicate on the implementation trace",
